@@ -39,6 +39,7 @@ CONSTANTS
   Connections,          \* TRUE: offer VGetConnections (hydration with its documented self-repair)
   Seeded,               \* TRUE: behaviours start with index GName created and every id of Ids added
   SeedMaint,            \* maintenance configuration of the seeded index (Nil, or "mc2": graph retention, so graph vacuum runs)
+  SeedMV,               \* metadata value every seeded vector carries under every key of MKeys (Nil: the seed has no metadata)
   SeedTail,             \* TRUE: the seeded edge history includes b->g; FALSE: b has incoming edges only
   SeedGraph,            \* TRUE (with Seeded): the seed also holds an edge history: a->b linked, soft-unlinked, linked
                         \*   again, and b->g (b has the same relation incoming and outgoing, with different peers)
@@ -752,11 +753,13 @@ Reopen ==
 SeedCfg == CHOOSE c \in Cfgs : CfgValid(c)
 SeedVec == CHOOSE v \in Vecs : TRUE
 SeedIds == SetToSeq(Ids)
-SeedIx == FoldLeft(LAMBDA ix, id : IxAdd(ix, id, SeedVec, NoMeta), NewIndex(SeedCfg, SeedMaint, Nil), SeedIds)
+SeedUM == [k \in MKeys |-> SeedMV]
+SeedM  == StampMeta([cfg |-> SeedCfg], MkMeta(SeedUM))
+SeedIx == FoldLeft(LAMBDA ix, id : IxAdd(ix, id, SeedVec, SeedM), NewIndex(SeedCfg, SeedMaint, Nil), SeedIds)
 SeedOps == <<[op |-> "VCreate", n |-> GName, cfg |-> SeedCfg, mc |-> SeedMaint, al |-> Nil, res |-> "ok"]>>
            \o [j \in 1..Len(SeedIds) |-> [op |-> "VAdd", n |-> GName, id |-> SeedIds[j], vec |-> SeedVec,
-                                             meta |-> [k \in MKeys |-> Nil], res |-> "ok"]]
-SeedFile == <<CCreate(GName, SeedCfg, Nil, SeedMaint)>> \o [j \in 1..Len(SeedIds) |-> CAdd(GName, SeedIds[j], SeedVec, NoMeta)]
+                                             meta |-> SeedUM, res |-> "ok"]]
+SeedFile == <<CCreate(GName, SeedCfg, Nil, SeedMaint)>> \o [j \in 1..Len(SeedIds) |-> CAdd(GName, SeedIds[j], SeedVec, SeedM)]
 
 \* the edge history of the graph seed (timestamps 1..4)
 SeedR == CHOOSE r \in Rels : TRUE
